@@ -75,6 +75,9 @@ struct RunOut {
 
 fn one_run(c: &C18Case, version: u8, mb: Option<u32>, mut o: Oracles, label: &str) -> Result<RunOut, (Fail, Vec<String>)> {
     o.pin_new_times = true;
+    // the real-file run of version 4 goes through cfb::create(path) and then opens the path;
+    // every other run of that version reopens after creation too (same library calls)
+    o.reopen_after_create = version == 4;
     o.final_reopen = true;
     o.dump_every = 9;
     let case = Case { version, max_buf: mb, start: Start::Fresh, pool: c.pool.clone(), ops: c.ops.clone() };
